@@ -46,6 +46,8 @@ var c07Mutants = []Mutant{
 		Edits: []Edit{{File: "channel/channel.go", Old: "\t\t\tc.done <- struct{}{}\n", New: "\t\t\tselect {\n\t\t\tcase c.done <- struct{}{}:\n\t\t\tcase <-time.After(c.TimeoutOps):\n\t\t\t}\n"}}},
 	{ID: "C07-read-lock-leaked-on-error", Desc: "Transport.read keeps the read lock when the implementation read fails", Rule: "C07/lock-paired",
 		Edits: []Edit{{File: "transport/transport.go", Old: "\tt.implLock.Lock()\n\tdefer t.implLock.Unlock()\n\n\treturn t.Impl.Read(n)", New: "\tt.implLock.Lock()\n\n\tb, err := t.Impl.Read(n)\n\tif err != nil {\n\t\treturn nil, err\n\t}\n\n\tt.implLock.Unlock()\n\n\treturn b, nil"}}},
+	{ID: "C07-eof-chain-cut", Desc: "standard transport wraps read errors with %s", Rule: "C07/eof-chain",
+		Edits: []Edit{{File: "transport/standard.go", Old: "\tn, err := t.reader.Read(b)\n\tif err != nil {\n\t\treturn nil, err\n\t}", New: "\tn, err := t.reader.Read(b)\n\tif err != nil {\n\t\treturn nil, fmt.Errorf(\"%w: read failed: %s\", util.ErrConnectionError, err)\n\t}"}}},
 	{ID: "C07-close-skips-transport", Desc: "Channel.Close returns early when the reader already exited", Rule: "C07/close-reaches-transport",
 		Edits: []Edit{{File: "channel/channel.go", Old: "\t} else {\n\t\tclose(ch)\n\t}\n", New: "\t} else {\n\t\tclose(ch)\n\n\t\treturn nil\n\t}\n"}}},
 	{ID: "C07-new-shared-counter", Desc: "reader counts bytes in a plain field read by an API method", Rule: "C07/L",
@@ -200,6 +202,7 @@ func runC07(c *Ctx, r *Report) {
 	r.Rule("C07/L", "every struct field accessed by two thread classes with a post-start write is protected by a common must-held lock (or is a channel/sync value)", 8)
 	r.Rule("C07/M", "a map field a reader goroutine inserts into is never assigned anything but a fresh map once that goroutine may run", 2)
 	r.Rule("C07/lock-paired", "every Lock/RLock of a library mutex is followed on all paths to the return by its Unlock/RUnlock or a deferred one", 8)
+	r.Rule("C07/eof-chain", "every transport read function hands its error on unwrapped or wrapped with %w, so the reader's errors.Is(err, io.EOF) sees the end of the stream", 6)
 	r.Rule("C07/impl-close-all", "Close of each built-in transport releases every closable resource it holds (or finds it nil) before any return", 3)
 	r.Rule("C07/close-reaches-transport", "every return of Channel.Close is preceded by Transport.Close; the timeout edge is forced; the forced path takes no read lock; reads hold the read lock; every driver Close reaches Channel.Close", 6)
 
@@ -213,6 +216,7 @@ func runC07(c *Ctx, r *Report) {
 	checkLockset(c, r, cl, "C07/L", nil)
 	checkReaderMaps(c, r, cl)
 	checkLockPaired(c, r)
+	checkEOFChain(c, r)
 	checkCloseReachesTransport(c, r)
 	checkImplCloseAll(c, r)
 	r.Extra["api_roots"] = len(cl.apiRoots)
